@@ -20,9 +20,13 @@ BlendVal(vals, locs, loc) ==
   IF Len(locs) = 1 THEN vals[1]
   ELSE LET k == Segment(locs, loc) IN Lin(vals[k], vals[k + 1], locs[k], locs[k + 1], loc)
 
-\* blend of the same-named glyph of all masters that have it (point compatible)
-BlendGlyph(gss, locs, n, loc) ==
-  LET have == SelectSeq([k \in 1..Len(gss) |-> k], LAMBDA k : n \in DOMAIN gss[k])
+\* blend of the same-named glyph of all masters that have it (point compatible).  A master in which the glyph is EMPTY
+\* (no contours, no components) does not take part when the default master's glyph is not empty
+\* (instantiator.collect_glyph_masters, the "S.closed" rule inherited from ufoProcessor).
+IsEmptyGlyph(g) == Len(g.cs) = 0 /\ Len(g.comps) = 0
+BlendGlyph(gss, locs, dflt, n, loc) ==
+  LET have == SelectSeq([k \in 1..Len(gss) |-> k],
+                        LAMBDA k : n \in DOMAIN gss[k] /\ (IsEmptyGlyph(gss[dflt][n]) \/ ~IsEmptyGlyph(gss[k][n])))
       L == [j \in 1..Len(have) |-> locs[have[j]]]
       g(j) == gss[have[j]][n]
       g1 == g(1)
